@@ -395,6 +395,21 @@ func runEco(ed ecoDef, ov []oracleVer, strs []strEntry, col *collector, seed int
 			dom = append(dom, s)
 		}
 	}
+	// "any input": the same short strings with their ASCII digits / letters replaced by non-ASCII digits
+	// (Arabic-Indic, fullwidth, superscript) and letters; only no-panic, reflexivity and antisymmetry apply
+	uni := strings.NewReplacer("0", "\u0660", "1", "\uff11", "2", "\u0662", "9", "\u00b2", "a", "\u00e9", "r", "\u0440")
+	seenUni := map[string]bool{}
+	for _, s := range strs {
+		if s.nsyms > 3 {
+			continue
+		}
+		for _, v := range []string{uni.Replace(s.s), s.s + "\u0663", "1." + uni.Replace(s.s) + ".3"} {
+			if v != s.s && !seenUni[v] {
+				seenUni[v] = true
+				dom = append(dom, strEntry{s: v, nsyms: s.nsyms})
+			}
+		}
+	}
 	sum.Strings = len(dom)
 	var cmps, lawPairs, nonZero, rejected int64
 	parallelFor(len(dom), workers, func(i int) {
